@@ -380,6 +380,19 @@ def run_pipeline(tier, scratch, sizes=None, inputs=None, consts=None):
     violf = os.path.join(sd, 'viol.ndjson')
     C.write_ndjson(os.path.join(sd, 'pairs.ndjson'),
                    [dict(id=o['id'], **{'in': byid[o['id']], 'out': o['out']}) for o in obs])
+    # the distinct outcomes of every input that was observed with more than one (repetitions sample map orders / random picks)
+    groups, firstidx = {}, {}
+    for k, o in enumerate(obs):
+        c = canon_out(o['out'], False)
+        g = groups.setdefault(o['id'], {})
+        if c not in g:
+            g[c] = o['out']
+            firstidx.setdefault(o['id'], k + 1)
+    gl = [dict(id=i, idx=firstidx[i], **{'in': byid[i], 'outs': list(g.values())}) for i, g in groups.items() if len(g) > 1]
+    if not gl:   # (never an empty file)
+        o = obs[0]
+        gl = [dict(id=o['id'], idx=1, **{'in': byid[o['id']], 'outs': [o['out']]})]
+    C.write_ndjson(os.path.join(sd, 'groups.ndjson'), gl)
     ev = C.tlc(sd, 'RebalanceEval', 'eval.cfg', workers=1, cfg_text='', timeout=3000, heap='12g')
     C.require_ok(ev, 'RebalanceEval')
     viol = C.read_ndjson(violf)
@@ -389,6 +402,13 @@ def run_pipeline(tier, scratch, sizes=None, inputs=None, consts=None):
                 stats=stats[0] if stats else {}, tlc=res, times=dict(model=t_model, impl=t_impl, eval=t_eval),
                 reps=reps, outcomes_seen=sum(len(v) for v in seen_outcomes.values()),
                 outcomes_model=sum(len(v) for v in model.values()), consts=consts)
+
+
+def write_no_groups(sd, pairs):
+    """RebalanceEval also reads groups.ndjson (distinct outcomes per repeated input); callers that do not repeat inputs
+    hand it one group with one outcome (TLC's reader does not take an empty file)."""
+    p = pairs[0]
+    C.write_ndjson(os.path.join(sd, 'groups.ndjson'), [dict(id=p['id'], idx=1, **{'in': p['in'], 'outs': [p['out']]})])
 
 
 def sig_of(prop, v):
